@@ -1,6 +1,31 @@
 (* C10 - Results depend only on the balances asked for, never on how the store answers.
-   Statements only; proofs in Proofs/StoreProofs.v and Proofs/CoverageProofs.v. *)
-From NS Require Import Run StoreProofs.
+   Statements only; proofs in Proofs/StoreProofs.v, CacheExt.v, SheetProofs.v, StoreKinds.v.
+
+   Spec/SheetRun.v defines [run_sheet B M]: the script executed directly on a balance sheet B and a
+   metadata sheet M, without any store (requested cells at their value in B, every other cell and
+   the balance of @world read as 0), and [faithful B M sb]: the store sb answers every balance query
+   with at least the requested cells at their value in B - cells that are absent or zero in B may
+   be left out, anything may be added - and every metadata query with the text M holds. *)
+From NS Require Import Run StoreProofs SheetRun SheetProofs StoreKinds Observe.
+
+(* against ANY faithful store, whatever it leaves out or adds and whatever it answers to which call,
+   the outcome (postings, transaction and account metadata, or the error) is the outcome of the
+   sheet semantics: a function of the script, the variables and the ledger alone *)
+Theorem C10_store_refines_sheet : forall B M sb p raw flag,
+  faithful B M sb -> outcome_of (run_program p raw sb flag) = run_sheet B M p raw flag.
+Proof. exact (fun B M sb p raw flag H => run_program_refines_sheet B M sb H p raw flag). Qed.
+
+(* hence two faithful stores give the same outcome *)
+Theorem C10_faithful_stores_agree : forall B M sb1 sb2 p raw flag,
+  faithful B M sb1 -> faithful B M sb2 ->
+  outcome_of (run_program p raw sb1 flag) = outcome_of (run_program p raw sb2 flag).
+Proof. exact faithful_stores_agree. Qed.
+
+(* the store that returns exactly the pairs requested, the one that omits absent or zero entries,
+   the one that returns its whole content and the bundled static store (which does the same) are
+   faithful: the four behaviours the implementation is run against by the harness *)
+Theorem C10_store_kinds_faithful : forall k B M, faithful B M (mk_store k B M None).
+Proof. exact store_kinds_faithful. Qed.
 
 (* the balance of @world is never requested: no balance query that reaches the store, at any point
    of any execution (variable origins, preload), mentions @world *)
@@ -14,8 +39,14 @@ Theorem C10_cache_monotone : forall ans cache k v,
   bfind k cache = Some v -> bfind k (merge_balances cache ans) = Some v.
 Proof. exact cache_monotone. Qed.
 
+Print Assumptions C10_store_refines_sheet.
+Print Assumptions C10_faithful_stores_agree.
+Print Assumptions C10_store_kinds_faithful.
 Print Assumptions C10_world_never_queried.
 Print Assumptions C10_cache_monotone.
 
-Example C10_example : merge_balances [(("a", "USD"), 7)] [(("a", "USD"), 0); (("b", "USD"), 3)] = [(("a", "USD"), 7); (("b", "USD"), 3)].
-Proof. reflexivity. Qed.
+Example C10_example :
+  merge_balances [(("a", "USD"), 7)] [(("a", "USD"), 0); (("b", "USD"), 3)] = [(("a", "USD"), 7); (("b", "USD"), 3)]
+  (* an unrequested cell (here @world's) is not cached even when the store volunteers it *)
+  /\ restrict_answer [("x", ["USD"])] [(("x", "USD"), 5); (("world", "USD"), 70)] = [(("x", "USD"), 5)].
+Proof. split; reflexivity. Qed.
